@@ -121,3 +121,75 @@ UNITS = [
          must_have=[r"SEL_call.postcondition", r"loop_invariant_step", r"selector.eval_in_range"], checks=["--bounds-check", "--pointer-check"],
          note="Selector::operator(): returns a valid index (< size) after exactly one draw for any weights and any size; the weight functor is only evaluated in range"),
 ]
+
+
+# ---------------------------------------------------------------------------
+# GammaDistribution: the shape boost (constructor) and its correction (call) agree
+# ---------------------------------------------------------------------------
+from vkit.extract import MulToUF  # noqa: E402
+
+GAM = "src/celeritas/random/distribution/GammaDistribution.hh"
+
+GAM_MODEL = """
+typedef struct { real_type alpha_, beta_, alpha_p_, d_, c_; } GammaDistribution;
+double __CPROVER_uninterpreted_mul(double, double);
+#define MUL(a, b) __CPROVER_uninterpreted_mul((a), (b))      /* products: uninterpreted (values not decided) */
+#define IPOW(n, x) __CPROVER_uninterpreted_mul((double)(n), (x))   /* ipow<n>(x): uninterpreted */
+double __CPROVER_uninterpreted_log(double); double __CPROVER_uninterpreted_fastpow(double, double); double __CPROVER_uninterpreted_rsqrt(double);
+real_type NORMAL_sample(Engine* rng) __CPROVER_requires(1) __CPROVER_assigns() __CPROVER_ensures(!__CPROVER_isnand(__CPROVER_return_value));   /* NormalDistribution: any number */
+int g_it;            /* ghost: rejection-loop iterations (bounded unit) */
+int g_corrected;     /* ghost: number of times the U^(1/alpha) correction was applied */
+#undef generate_canonical
+"""
+GAM_CALL_RULES = [
+    Rule(r"sample_normal_\(rng\)", "NORMAL_sample(rng)", 1, note="member functor -> stub"),
+    Rule(r"\b(alpha_|beta_|alpha_p_|d_|c_)\b", r"self->\1", "+", note="data member"),
+    Rule(r"z = NORMAL_sample\(rng\);", "__CPROVER_assume(++g_it <= 3); /* bounded unit: at most 3 rejection iterations in total */ z = NORMAL_sample(rng);", 1, note="ghost iteration bound"),
+    Rule(r"ipow<(\d)>\(([^()]*)\)", r"IPOW(\1, \2)", "+", note="ipow<n>(x) -> uninterpreted"),
+    Rule(r"real_type\(([\d.]+)\)", r"((real_type)\1)", "*", note="functional cast"),
+    Rule(r"std::log\(", "__CPROVER_uninterpreted_log(", "*", note="std::log -> uninterpreted"),
+    Rule(r"generate_canonical<real_type>\(rng\)", "generate_canonical(rng)", "+", note="generate_canonical -> stub"),
+    Rule(r"result \*= fastpow\(generate_canonical\(rng\), 1 / self->alpha_\);", "{ ++g_corrected; result = MUL(result, __CPROVER_uninterpreted_fastpow(generate_canonical(rng), 1 / self->alpha_)); }", 1, note="correction factor U^(1/alpha); ghost count"),
+    Rule(r"result_type result = self->d_ \* v \* self->beta_;", "real_type result = MUL(MUL(self->d_, v), self->beta_);", 1, note="products -> uninterpreted"),
+    Rule(r"self->c_ \* z", "MUL(self->c_, z)", 1, note="product -> uninterpreted"),
+    Rule(r"self->d_ \* \(", "MUL(self->d_, ", 1, note="product -> uninterpreted"),
+    Rule(r"\(\(real_type\)0\.0331\) \* IPOW", "0.0331 * IPOW", "*", note="(constant product kept)"),
+]
+
+
+def build_gamma(ctx):
+    import re
+    from vkit.extract import ExtractionDrift
+    ct = ctx.func(GAM, r"^GammaDistribution<RealType>::GammaDistribution\(real_type alpha, real_type beta\)", [], name="GammaDistribution(alpha, beta)")
+    m = re.search(r"alpha_p_\(([^)]*)\)", ct.head)
+    if not m:
+        raise ExtractionDrift("GammaDistribution constructor: no alpha_p_ initializer")
+    alpha_p_init = m.group(1)
+    pc = ctx.func(GAM, r"^GammaDistribution<RealType>::operator\(\)\(Generator& rng\) -> result_type", GAM_CALL_RULES, name="GammaDistribution::operator()")
+    return (HDR + RNG_MODEL.replace("g_draws < 4", "g_draws < 8").replace("real_type g_u[4]", "real_type g_u[8]") + GAM_MODEL + """
+/* constructor's member initializer for the boosted shape, extracted from the initializer list: alpha_p_(""" + alpha_p_init + """) */
+static real_type GAM_alpha_p(real_type alpha) { return """ + alpha_p_init + """; }
+real_type GAM_call(GammaDistribution const* self, Engine* rng)
+__CPROVER_requires(self != 0 && self->alpha_ > 0 && !__CPROVER_isinfd(self->alpha_) && self->beta_ > 0 && g_draws == 0 && g_corrected == 0 && g_it == 0)
+/* object invariant established by the constructor (its initializer text is evaluated here) */
+__CPROVER_requires(self->alpha_p_ == GAM_alpha_p(self->alpha_))
+__CPROVER_assigns(g_draws, g_it, g_corrected)
+/* Marsaglia-Tsang: shapes below 1 are sampled with alpha + 1 and corrected by one extra uniform draw U^(1/alpha); shapes >= 1 (including exactly 1) are NOT corrected */
+__CPROVER_ensures(g_corrected == (self->alpha_ < 1 ? 1 : 0))
+{""" + pc.body + """}
+void h_gam(void)
+{
+    GammaDistribution d; Engine* e;
+    GAM_call(&d, e);
+    VERIF_CANARY();
+}
+""")
+
+
+UNITS += [
+    Unit("c15_gamma_boost", build_gamma, "h_gam", enforce="GAM_call", replace=["generate_canonical", "NORMAL_sample"], unwind=5, timeout=300, backend=["sat", "cvc5"],
+         bounded="at most 3 rejection iterations (the checked fact does not depend on them); all arithmetic uninterpreted",
+         must_have=[r"GAM_call.postcondition"], checks=["--bounds-check", "--pointer-check"],
+         assumptions=["normal sampler, log, pow, products uninterpreted: the unit decides only WHEN the U^(1/alpha) correction is applied"],
+         note="GammaDistribution: the correction draw is applied iff the constructor boosted the shape (alpha < 1), in particular not at alpha == 1"),
+]
